@@ -61,29 +61,103 @@ contract('DictStorage.remove', module=MD, props=['C15'],
                   '       and dict_has(self.meta_db, k) == old(dict_has(self.meta_db, k))))'],
          modifies=['contents(self.env_db)', 'contents(self.meta_db)'])
 
+# ghost result of the last _remove_delivered_rcpts call: rd_map[j] = position in the OLD recipient list of the
+# recipient now at position j (strictly increasing), rd_inv its inverse on the surviving positions
+klass('QueueStorage', ghost={'rd_map': 'ArrV[Int]', 'rd_inv': 'ArrV[Int]', 'rd_n0': 'Int'})
+
+
+def _arr_ident(st, args):
+    st.nfresh += 1
+    a = st.fresh(z3.ArraySort(z3.IntSort(), z3.IntSort()), 'ident')
+    j = z3.Int('j!id%d' % st.nfresh)
+    st.assume(z3.ForAll([j], z3.Select(a, j) == j, patterns=[z3.Select(a, j)]))
+    return Val(T.parse_type('ArrV[Int]'), a)
+
+
+def _arr_shift(st, args):
+    """arr_shift(a, i)[j] = a[j] for j < i, a[j+1] for j >= i   (the index map after `del l[i]`)"""
+    a, i = args[0].z, args[1].z
+    st.nfresh += 1
+    r = st.fresh(z3.ArraySort(z3.IntSort(), z3.IntSort()), 'shift')
+    j = z3.Int('j!sh%d' % st.nfresh)
+    st.assume(z3.ForAll([j], z3.Select(r, j) == z3.If(j < i, z3.Select(a, j), z3.Select(a, j + 1)),
+                        patterns=[z3.Select(r, j)]))
+    return Val(T.parse_type('ArrV[Int]'), r)
+
+
+def _arr_unshift(st, args):
+    """arr_unshift(a, i)[p] = a[p] for p < i, -1 for p == i, a[p] - 1 for p > i   (inverse index map after
+    `del l[i]`: negative = that old position is gone)"""
+    a, i = args[0].z, args[1].z
+    st.nfresh += 1
+    r = st.fresh(z3.ArraySort(z3.IntSort(), z3.IntSort()), 'unshift')
+    p = z3.Int('p!us%d' % st.nfresh)
+    st.assume(z3.ForAll([p], z3.Select(r, p) == z3.If(p < i, z3.Select(a, p), z3.If(p == i, -1, z3.Select(a, p) - 1)),
+                        patterns=[z3.Select(r, p)]))
+    return Val(T.parse_type('ArrV[Int]'), r)
+
+
+calls.SPECFUNS['arr_ident'] = _arr_ident
+calls.SPECFUNS['arr_shift'] = _arr_shift
+calls.SPECFUNS['arr_unshift'] = _arr_unshift
+
+predicate('IN_IDX(x, c)', '(is_type(c, Set[Int]) and x in cast(c, Set[Int])) or (is_type(c, List[Int]) and x in seq(cast(c, List[Int])))')
+
+# _gb: the smallest position deleted so far (the list length before the first deletion)
+RD_INV = [
+    'len(envelope.recipients) == old(len(envelope.recipients)) - _k',
+    '0 <= _gb and _gb <= len(envelope.recipients)',
+    'implies(_k > 0, _gb == _seq0[_k - 1])', 'implies(_k == 0, _gb == old(len(envelope.recipients)))',
+    # every surviving recipient is the old one at position _gmap[j]; below the last deleted position nothing moved
+    'forall(range(0, len(envelope.recipients)), lambda j: envelope.recipients[j] == old(seq(envelope.recipients))[_gmap[j]] '
+    '       and 0 <= _gmap[j] and _gmap[j] < old(len(envelope.recipients)))',
+    'forall(pairs(len(envelope.recipients)), lambda a, b: _gmap[a] < _gmap[b])',
+    'forall(range(0, _gb), lambda j: _gmap[j] == j and _ginv[j] == j)',
+    # _ginv is the inverse of _gmap on the surviving positions and negative on the deleted ones: no survivor sits
+    # at a deleted position, and every position that was not deleted survives
+    'forall(range(0, len(envelope.recipients)), lambda j: _ginv[_gmap[j]] == j)',
+    'forall(range(0, _k), lambda t: _ginv[_seq0[t]] < 0)',
+    'forall(range(0, old(len(envelope.recipients))), lambda p: implies(forall(range(0, _k), lambda t: _seq0[t] != p), '
+    '       0 <= _ginv[p] and _ginv[p] < len(envelope.recipients) and _gmap[_ginv[p]] == p))',
+]
+
 contract('QueueStorage._remove_delivered_rcpts', module=MQ, props=['C15', 'C03'],
-         params={'self': 'QueueStorage', 'envelope': 'Envelope', 'rcpt_indexes': 'Set[Int]'},
-         requires=['envelope != None', 'envelope.recipients != None', 'is_list(envelope.recipients)', 'rcpt_indexes != None',
-                   'forall(Int, lambda p: implies(p in rcpt_indexes, 0 <= p and p < len(envelope.recipients)))'],
-         # every position below the smallest marked index keeps its recipient, and exactly |indexes| recipients go
-         ensures=['len(envelope.recipients) == old(len(envelope.recipients)) - len(rcpt_indexes)',
-                  'forall(range(0, len(envelope.recipients)), lambda p: implies(forall(Int, lambda q: implies(q in rcpt_indexes, q > p)), '
-                  '       envelope.recipients[p] == old(seq(envelope.recipients))[p]))'],
-         modifies=['contents(envelope.recipients)'],
+         params={'self': 'QueueStorage', 'envelope': 'Envelope', 'rcpt_indexes': 'Union[Set[Int], List[Int]]'},
+         requires=['envelope != None', 'envelope.recipients != None', 'is_list(envelope.recipients)',
+                   'implies(is_type(rcpt_indexes, Set[Int]), forall(Int, lambda p: implies(p in cast(rcpt_indexes, Set[Int]), '
+                   '        0 <= p and p < len(envelope.recipients))))',
+                   'implies(is_type(rcpt_indexes, List[Int]), forall(cast(rcpt_indexes, List[Int]), lambda p: '
+                   '        0 <= p and p < len(envelope.recipients)) and distinct_by(cast(rcpt_indexes, List[Int]), lambda p: p))',
+                   'not (rcpt_indexes is None)'],
+         ghost_entry=['_gmap = arr_ident()', '_ginv = arr_ident()', '_gb = len(envelope.recipients)', '_gn0 = len(envelope.recipients)'],
+         ghost_after={'del envelope.recipients[index]': ['_gmap = arr_shift(_gmap, index)', '_ginv = arr_unshift(_ginv, index)',
+                                                         '_gb = index']},
+         ghost_exit=['self.rd_map = _gmap', 'self.rd_inv = _ginv', 'self.rd_n0 = _gn0'],
+         # exactly the recipients at the given positions are gone, the others keep their relative order:
+         # new[j] == old[rd_map[j]] with rd_map strictly increasing onto the positions that were not given
+         ensures=['self.rd_n0 == old(len(envelope.recipients))',
+                  'forall(range(0, len(envelope.recipients)), lambda j: envelope.recipients[j] == old(seq(envelope.recipients))[self.rd_map[j]] '
+                  '       and 0 <= self.rd_map[j] and self.rd_map[j] < self.rd_n0 and not IN_IDX(self.rd_map[j], rcpt_indexes))',
+                  'forall(pairs(len(envelope.recipients)), lambda a, b: self.rd_map[a] < self.rd_map[b])',
+                  'forall(range(0, self.rd_n0), lambda p: implies(not IN_IDX(p, rcpt_indexes), '
+                  '       0 <= self.rd_inv[p] and self.rd_inv[p] < len(envelope.recipients) and self.rd_map[self.rd_inv[p]] == p))',
+                  'implies(is_type(rcpt_indexes, Set[Int]), len(envelope.recipients) == self.rd_n0 - len(cast(rcpt_indexes, Set[Int])))',
+                  'implies(is_type(rcpt_indexes, List[Int]), len(envelope.recipients) == self.rd_n0 - len(cast(rcpt_indexes, List[Int])))',
+                  # nothing moves below the smallest given position (in particular: no positions, no change)
+                  'forall(range(0, len(envelope.recipients)), lambda j: implies(forall(range(0, self.rd_n0), lambda q: '
+                  '       implies(IN_IDX(q, rcpt_indexes), q > j)), self.rd_map[j] == j))'],
+         modifies=['contents(envelope.recipients)', 'self.rd_map', 'self.rd_inv', 'self.rd_n0'],
          loops={0: dict(modifies=['contents(envelope.recipients)'],
-                        inv=['len(envelope.recipients) == old(len(envelope.recipients)) - _k',
-                             'forall(range(0, _k), lambda j: _seq0[j] >= len(envelope.recipients) - 0 or True)',
-                             'forall(range(0, len(envelope.recipients)), lambda p: implies(forall(range(0, _k), lambda j: _seq0[j] > p), '
-                             '       envelope.recipients[p] == old(seq(envelope.recipients))[p]))',
-                             'forall(range(_k, len(_seq0)), lambda j: _seq0[j] < len(envelope.recipients))'])},
-         notes='full position-wise specification (new == old without the marked positions) is checked by the bounded '
-               'stand-in bounded/remove_delivered.py')
+                        inv=RD_INV + ['_gn0 == old(len(envelope.recipients))',
+                                      'forall(range(_k, len(_seq0)), lambda t: _seq0[t] < _gb)'])})
 
 
 def _py_sorted(st, args):
     """sorted(iterable_of_ints, reverse=...): a fresh list with the same elements, each once per occurrence,
     ordered (descending when reverse).  For a set argument: length == cardinality, elements == the set."""
     v, rev = args
+    if v.t.kind == 'union':
+        v = E.concretize(st, v)
     ref = st.new_ref('list')
     et = T.INT
     r = B.seq_fresh(st, z3.IntSort(), 'sorted')
@@ -103,6 +177,24 @@ def _py_sorted(st, args):
         st.assume(z3.ForAll([x], z3.Implies(z3.Select(sv, x), z3.And(0 <= wit(x), wit(x) < r.n,
                                                                      z3.Select(r.arr, wit(x)) == x)),
                             patterns=[z3.Select(sv, x)]))
+        strict = True
+    elif v.t.kind == 'list' and v.t.args and v.t.args[0] == T.INT:
+        # a list WITHOUT repeated elements (proved here): the result is a permutation of it, strictly ordered
+        src, _ = B.seq_of(st, v)
+        a1, a2 = z3.Int('a!srt'), z3.Int('b!srt')
+        st.prove('call[sorted]@%d/distinct-elements' % st.lineno,
+                 z3.ForAll([a1, a2], z3.Implies(z3.And(0 <= a1, a1 < a2, a2 < src.n),
+                                                z3.Select(src.arr, a1) != z3.Select(src.arr, a2)),
+                           patterns=[z3.MultiPattern(z3.Select(src.arr, a1), z3.Select(src.arr, a2))]), kind='pre')
+        st.assume(r.n == src.n)
+        fw = z3.Function('srtfw!%d' % st.nfresh, z3.IntSort(), z3.IntSort())   # position in src of r[k]
+        bw = z3.Function('srtbw!%d' % st.nfresh, z3.IntSort(), z3.IntSort())   # position in r of src[k]
+        st.assume(z3.ForAll([k], z3.Implies(z3.And(0 <= k, k < r.n),
+                                            z3.And(0 <= fw(k), fw(k) < src.n, z3.Select(src.arr, fw(k)) == z3.Select(r.arr, k))),
+                            patterns=[z3.Select(r.arr, k)]))
+        st.assume(z3.ForAll([k], z3.Implies(z3.And(0 <= k, k < src.n),
+                                            z3.And(0 <= bw(k), bw(k) < r.n, z3.Select(r.arr, bw(k)) == z3.Select(src.arr, k))),
+                            patterns=[z3.Select(src.arr, k)]))
         strict = True
     else:
         raise Undecided('sorted() of %r' % (v.t,))
